@@ -4,8 +4,8 @@
 (* servers.  One trace = one real gortsplib.Client driven through          *)
 (* Start / Describe / SetupAll / Play (or Announce / Record) / Pause /     *)
 (* Close against a scripted server that deviates from the protocol.        *)
-(*   Call(op, outcome, ms, dead)   an API call returned after ms with      *)
-(*        outcome "ok" or "err"; dead = the client's run loop had already  *)
+(*   Call(op, outcome, ms, cdead)   an API call returned after ms with      *)
+(*        outcome "ok" or "err"; cdead = the client's run loop had already  *)
 (*        terminated (Wait() had returned) when the call was made          *)
 (*   Died                          Wait() returned: the client has failed  *)
 (*   CloseRet(ms)                  Close returned                          *)
@@ -15,12 +15,12 @@
 EXTENDS Naturals
 
 CONSTANTS MaxCallMs,       \* ReadTimeout(s) a call may legitimately consume, plus slack
-          MaxDeadMs        \* a call on a dead client fails fast
+          MaxDeadMs        \* a call on a cdead client fails fast
 
-VARIABLES dead, closed, ncalls
-cvars == <<dead, closed, ncalls>>
-CInit == dead = FALSE /\ closed = FALSE /\ ncalls = 0
-CReset == dead' = FALSE /\ closed' = FALSE /\ ncalls' = 0
+VARIABLES cdead, closed, ncalls
+cvars == <<cdead, closed, ncalls>>
+CInit == cdead = FALSE /\ closed = FALSE /\ ncalls = 0
+CReset == cdead' = FALSE /\ closed' = FALSE /\ ncalls' = 0
 
 \* every call returns a result or an error within its timeouts;
 \* after a failure the client reports that failure instead of blocking
@@ -30,12 +30,12 @@ Call(op, outcome, ms, wasDead) ==
   /\ ms <= MaxCallMs
   /\ wasDead => (outcome = "err" /\ ms <= MaxDeadMs)
   /\ ncalls' = ncalls + 1
-  /\ UNCHANGED <<dead, closed>>
+  /\ UNCHANGED <<cdead, closed>>
 
-Died == dead' = TRUE /\ UNCHANGED <<closed, ncalls>>
+Died == cdead' = TRUE /\ UNCHANGED <<closed, ncalls>>
 
 \* Close always returns
-CloseRet(ms) == ~closed /\ ms <= MaxCallMs /\ closed' = TRUE /\ UNCHANGED <<dead, ncalls>>
+CloseRet(ms) == ~closed /\ ms <= MaxCallMs /\ closed' = TRUE /\ UNCHANGED <<cdead, ncalls>>
 
 \* and leaves no goroutine or socket behind
 Census(goroutines, sockets) == closed /\ goroutines = 0 /\ sockets = 0 /\ UNCHANGED cvars
